@@ -11,6 +11,7 @@
 import Bma400.Builders
 import Bma400.Driver
 import Bma400.GeneratedBld
+import Bma400.GeneratedApi
 open Bma400 Bma400.Generated
 
 def cfgAddrs : List Nat :=
@@ -118,4 +119,33 @@ def main (args : List String) : IO UInt32 := do
       IO.println s!"DIFF selftest sh[{dump sh cfgAddrs}]"
       stOk := false
   if stOk then IO.println s!"OK selftest {n}" else bad := bad + 1
+  -- the plans of the API functions (only looked at when Thm/Plans.lean does not check)
+  let planEq (a b : Plan) : Bool := a.guard == b.guard && a.acts == b.acts
+  let mut apiOk := true
+  for _ in [0:(n / 20 + 1)] do
+    let mut sh : Array UInt8 := Array.replicate 128 0
+    for a in cfgAddrs do
+      s := xorshift s
+      sh := sh.set! a (pickByte s (R.defaultOf a).toNat.toUInt8)
+    let r := regsOf sh
+    let pairs : List (String × Plan × Plan) :=
+      [ ("get_id", Op.plan r .getId, Api.get_id r), ("get_cmd_error", Op.plan r .getCmdError, Api.get_cmd_error r),
+        ("get_status", Op.plan r .getStatus, Api.get_status r), ("get_unscaled_data", Op.plan r .getUnscaled, Api.get_unscaled_data r),
+        ("get_data", Op.plan r .getData, Api.get_data r), ("get_sensor_clock", Op.plan r .getSensorClock, Api.get_sensor_clock r),
+        ("get_reset_status", Op.plan r .getResetStatus, Api.get_reset_status r),
+        ("get_int_status0", Op.plan r .getIntStatus0, Api.get_int_status0 r), ("get_int_status1", Op.plan r .getIntStatus1, Api.get_int_status1 r),
+        ("get_int_status2", Op.plan r .getIntStatus2, Api.get_int_status2 r), ("get_fifo_len", Op.plan r .getFifoLen, Api.get_fifo_len r),
+        ("read_fifo_frames 0", Op.plan r (.readFifo 0), Api.read_fifo_frames r 0), ("read_fifo_frames 7", Op.plan r (.readFifo 7), Api.read_fifo_frames r 7),
+        ("read_fifo_frames 1025", Op.plan r (.readFifo 1025), Api.read_fifo_frames r 1025),
+        ("flush_fifo", Op.plan r .flushFifo, Api.flush_fifo r), ("get_step_count", Op.plan r .getStepCount, Api.get_step_count r),
+        ("clear_step_count", Op.plan r .clearStepCount, Api.clear_step_count r), ("get_step_activity", Op.plan r .getStepActivity, Api.get_step_activity r),
+        ("get_raw_temp", Op.plan r .getRawTemp, Api.get_raw_temp r), ("get_temp_celsius", Op.plan r .getTempCelsius, Api.get_temp_celsius r),
+        ("perform_self_test", Op.plan r .selfTest, Api.perform_self_test r), ("soft_reset", Op.plan r .softReset, Api.soft_reset r),
+        ("new_i2c", ⟨none, Ctor.acts .newI2c⟩, Api.new_i2c r), ("new_spi", ⟨none, Ctor.acts .newSpi⟩, Api.new_spi r),
+        ("new_spi_3wire", ⟨none, Ctor.acts .newSpi3⟩, Api.new_spi_3wire r) ]
+    for (nm, a, b) in pairs do
+      if apiOk && !planEq a b then
+        IO.println s!"DIFF api {nm} sh[{dump sh cfgAddrs}]"
+        apiOk := false
+  if apiOk then IO.println s!"OK api {n / 20 + 1}" else bad := bad + 1
   return (if bad == 0 then 0 else 1)
